@@ -5,7 +5,9 @@ set -u
 patch="$1"; prop="$2"; tier="${3:-quick}"
 if [ -n "$(git -C /repo status --porcelain)" ]; then echo "try_patch: /repo is not clean" >&2; exit 3; fi
 git -C /repo apply "$patch" || { echo "try_patch: patch does not apply" >&2; exit 3; }
-trap 'git -C /repo checkout -- . ; git -C /repo clean -fdq path' EXIT
+# Evidence files are rewritten by every check run: keep the ones from the clean tree.
+evbak=$(mktemp -d /verif/.build/evbak.XXXXXX); cp /verif/evidence/*.json "$evbak"/ 2>/dev/null
+trap 'git -C /repo checkout -- . ; git -C /repo clean -fdq path; cp "$evbak"/*.json /verif/evidence/ 2>/dev/null; rm -rf "$evbak"' EXIT
 cd /verif && ./check "$prop" "$tier"
 rc=$?
 echo "try_patch: check exit=$rc"
